@@ -52,6 +52,7 @@ type CompScenario struct {
 	Ops        []CompOp     `json:"ops"`
 	YieldOp    string       `json:"yieldOp"` // stop | cancel | "" — injected at the reloadWithRestart.beforeBoot yield point
 	Sequential bool         `json:"seq"`     // operations are issued one after the other (each waits for the previous to finish)
+	PreCancel  bool         `json:"preCancel"` // the context is cancelled before Run() is invoked
 }
 
 type compChild struct {
@@ -249,6 +250,9 @@ func runCompScenario(sc CompScenario) compResult {
 		}
 		time.Sleep(3 * time.Millisecond) // let Run react while the reload is parked here
 	}})
+	if sc.PreCancel {
+		doCancel()
+	}
 	watch := watchStates(runner.GetStateChan, time.Duration(len(sc.Ops)*3)*time.Millisecond)
 	runDone := make(chan struct{})
 	go func() {
@@ -585,6 +589,10 @@ func genCompScenario(r interface {
 	if lifecycle {
 		kind += "+lifecycle"
 	}
+	if r.IntN(25) == 0 && sc.YieldOp == "" {
+		sc.PreCancel = true
+		kind += "+precancel"
+	}
 	return sc, kind
 }
 
@@ -609,6 +617,9 @@ var compCorpus = []CompScenario{
 	{Pool: []ChildSpec{{"a", "l", "wc", 0, 0}, {"b", "l", "wc", 0, 8}},
 		Configs: []CompConfig{{"ok", []CompEntry{{0, 1}, {1, 1}}}, {"ok", []CompEntry{{0, 1}}}, {"ok", []CompEntry{{1, 1}, {0, 1}}}, {"ok", []CompEntry{{1, 2}}}},
 		Ops:     []CompOp{{0, "reload"}, {0, "reloadx"}}, Sequential: true},
+	// Run() invoked with an already cancelled context, children whose Stop waits for their Run (bundled style)
+	{Pool: []ChildSpec{{"a", "l", "wc", 0, 0}, {"b", "l", "wc", 0, 0}}, Configs: []CompConfig{{"ok", []CompEntry{{0, 1}, {1, 1}}}}, Ops: []CompOp{{0, "stop"}}, Sequential: true, PreCancel: true},
+	{Pool: []ChildSpec{{"a", "f", "wc", 0, 0}, {"b", "l", "r", 0, 0}}, Configs: []CompConfig{{"ok", []CompEntry{{0, 1}, {1, 1}}}}, Ops: nil, Sequential: true, PreCancel: true},
 	// callback error then recovery
 	{Pool: []ChildSpec{{"a", "f", "wc", 0, 0}, {"b", "f", "wc", 0, 0}},
 		Configs: []CompConfig{{"ok", []CompEntry{{0, 1}}}, {Kind: "err"}, {"ok", []CompEntry{{1, 1}}}},
@@ -669,6 +680,13 @@ func runComposite(o Opts) {
 		slow := false
 		for _, sp := range j.sc.Pool {
 			slow = slow || sp.StartMs > 0
+		}
+		if j.sc.PreCancel {
+			// Run() with an already cancelled context: children are started, see the cancellation, and everything
+			// returns; the sequential model starts from a live context, so only the C09 statement is evaluated
+			e.Case("c09holds "+h+" "+ev, "true")
+			e.Nontrivial(h[:strings.Index(h, " scn~")] + " " + ev)
+			continue
 		}
 		if slow {
 			// slow starters: child events arrive after the reload that caused them returned, which the
